@@ -181,6 +181,8 @@ class Driver:
                     rec['finally'] = True
 
             delay = timedelta(seconds=pacing[1]) if pacing[0] == 'timed' else timedelta(0)
+            if cfg.get('factory_raises'):
+                gen = _raising_factory(world, who, iid, direction)
             src = StreamFromGenerator(gen, delay_between_messages=delay, on_cancel=on_cancel, on_complete=on_complete)
         else:
             from rsocket.streams.stream_from_async_generator import StreamFromAsyncGenerator
@@ -205,6 +207,8 @@ class Driver:
                 finally:
                     rec['finally'] = True
 
+            if cfg.get('factory_raises'):
+                agen = _raising_factory(world, who, iid, direction)
             src = StreamFromAsyncGenerator(agen, on_cancel=on_cancel, on_complete=on_complete)
         st.setdefault('lib_sources', {})[direction] = src
         return src
@@ -472,6 +476,14 @@ class Pair:
         except Exception:
             pass
         self.link.stop()
+
+
+def _raising_factory(world, who, iid, direction):
+    """A generator factory (application code) that raises instead of returning a generator."""
+    def factory():
+        world.log('emit_terminal', who=who, iid=iid, dir=direction, ev='error')
+        raise RuntimeError('app-error-%d' % iid)
+    return factory
 
 
 def instrument_endpoint_queue(world, ep, side):
